@@ -44,7 +44,7 @@ func (req *SrvReq) RespondError(err interface{}) {
 		max -= 4 /* ecode[4] */
 	}
 	if *Akaros {
-		max -= 5 /* "%04X " prefix added by PackRerror */
+		max -= len(fmt.Sprintf("%04X ", ecode)) /* prefix added by PackRerror */
 	}
 	if max >= 0 && len(ename) > max {
 		ename = ename[0:max]
